@@ -156,6 +156,10 @@ class Interp:
                 if x.get("q") == "std::path::Path::components":
                     base = x["recv"]
                     break
+                # between components() and any/all only adaptors that keep every component are a component WALK; skip / take / filter /
+                # step_by leave components unchecked and make the guard worthless for them
+                if x.get("name") not in ("rev", "peekable", "by_ref", "into_iter", "iter", "copied", "cloned", "fuse"):
+                    return None
                 x = x["recv"]
             if base is None:
                 return None
